@@ -634,6 +634,7 @@ func main() {
 	if len(rev) > 40 {
 		rev = rev[:40]
 	}
+	fmt.Printf("(informative, timing-dependent) workers spawned=%d, first-pass incidents=%d, confirmed when re-run alone=%d\n", s.spawned.Load(), len(first), len(confirmed))
 	perFam := map[string]any{}
 	var executed int64
 	for _, f := range g.fams {
@@ -665,8 +666,7 @@ func main() {
 	}
 	r.Finish("all token sequences of length <= k over the 34-token alphabet in 5 templates (quick k<=3 + k=4 over 16 tokens; thorough k<=4 + k=5 over 16 tokens); ladders: 45 constructs x sizes up to 30000 (quick) / 200000 (thorough); constant, cycle and resource menus; all single-token deletions/substitutions/duplications of 40 programs. distinct = distinct (family, index) cases executed",
 		exhaustive, map[string]any{
-			"families": perFam, "total_cases": total, "executed": executed, "workers_spawned": s.spawned.Load(),
-			"first_pass_incidents": len(first), "confirmed_incidents": len(confirmed),
+			"families": perFam, "total_cases": total, "executed": executed, "confirmed_incidents": len(confirmed),
 			"review_candidates": rev, "alphabet": alphabet, "sub_alphabet": subAlphabet, "cpu_limit_s": s.cpuLimit.Seconds(),
 		})
 }
